@@ -60,6 +60,9 @@ def _case(draw):
     cap = draw(st.sampled_from([max(1, sizes[0] - 1), sizes[0], sizes[len(sizes) // 2], sizes[-1], sizes[-1] + sizes[0],
                                 sum(sizes) + 1, 25_000_000]))
     return {'W': W, 'parts': parts, 'calls': calls, 'cap_bytes': cap,
+            # the tensors are handed over and the buckets flushed inside torch.inference_mode() (a validation pass of a model left in
+            # train mode); the results are awaited after the block has been left
+            'inference': draw(st.sampled_from([False, False, False, True])),
             'schedule': draw(st.lists(st.integers(0, 63), max_size=120)), 'flip': draw(st.booleans())}
 
 
@@ -129,14 +132,16 @@ class C08(Prop):
                 groups.append(dist.new_group(ranks))
             outs = {}
             simdist.set_phase('bucketed')
-            for i, c in enumerate(calls):
-                if c.get('flush'):
-                    comm.flush_allreduce_buckets()
-                    continue
-                if rank not in group_ranks[c['group']]:
-                    continue
-                t = make_tensor(torch, rank, i, c)
-                outs[i] = comm.allreduce_bucketed(t, average=c['average'], group=groups[c['group']], symmetric=c['symmetric'])
+            import contextlib
+            with (torch.inference_mode() if case.get('inference') else contextlib.nullcontext()):
+                for i, c in enumerate(calls):
+                    if c.get('flush'):
+                        comm.flush_allreduce_buckets()
+                        continue
+                    if rank not in group_ranks[c['group']]:
+                        continue
+                    t = make_tensor(torch, rank, i, c)
+                    outs[i] = comm.allreduce_bucketed(t, average=c['average'], group=groups[c['group']], symmetric=c['symmetric'])
             got = {}
             for i, f in outs.items():
                 got[i] = f.wait() if not isinstance(f, torch.Tensor) else f
@@ -252,7 +257,7 @@ class C08(Prop):
                         dts = {c['dtype']}
         return {'W': case['W'], 'shared_bucket': shared, 'oversized': oversized, 'two_groups_in_cycle': two,
                 'equal_size_groups': eq, 'equal_size_groups_in_cycle': eq, 'mixed_dtype': mixed, 'mixed_dtype_in_cycle': mixed,
-                'nparts': len(case['parts'])}
+                'nparts': len(case['parts']), 'inference_mode': bool(case.get('inference'))}
 
 
 PROP = C08()
